@@ -290,7 +290,7 @@ def run(ctx):
     chi = core.import_chi()
     corpus(ctx, chi)
     malformed(ctx, chi)
-    n = 300 if ctx.tier == 'quick' else 15000
+    n = 1200 if ctx.tier == 'quick' else 15000
     for i in range(n):
         rng = ctx.sub_rng(i)
         kinds, grids, obs, n_mech, psi, sig = gen_case(rng)
